@@ -687,6 +687,38 @@ def C09_function_body_constants_follow_precision():
     return True, "function-body constants follow the requested precision in both directions"
 
 
+def C03_function_identifiers_unique():
+    """the same @onnx_function instantiated inside another function (2,3) and at top level (2,5): every
+    function definition has its own (domain, name), the model passes the ONNX checker and agrees with JAX"""
+    import onnx
+    jax, jnp = _jax()
+    from witnesses import _fnmods
+    outer, top = _fnmods.Outer(), _fnmods.Project(5, 4)
+
+    def f(a, b):
+        return outer(a) + top(b)
+    a = np.random.default_rng(1).standard_normal((2, 3)).astype(np.float32)
+    b = np.random.default_rng(2).standard_normal((2, 5)).astype(np.float32)
+    try:
+        model = _export(f, [(2, 3), (2, 5)])
+    except Exception as e:
+        return True, f"export raised {type(e).__name__}"
+    ids = [(fn.domain, fn.name) for fn in model.functions]
+    if len(ids) != len(set(ids)):
+        return False, f"two function definitions share the identifier: {sorted(ids)}"
+    calls = [(n.domain, n.op_type) for n in list(model.graph.node) + [n for fn in model.functions for n in fn.node] if n.domain not in ("", "ai.onnx")]
+    missing = [c for c in calls if c not in ids]
+    if missing:
+        return False, f"call sites without a definition: {missing[:3]}"
+    if len(set(c for c in calls if c[1] == "Project")) < 2:
+        return False, f"Project is called with two different input shapes but only one definition exists: {sorted(set(calls))}"
+    try:
+        onnx.checker.check_model(model, full_check=True)
+    except Exception as e:
+        return False, f"onnx.checker rejects the model: {str(e)[:160]}"
+    return _cmp(f, [(2, 3), (2, 5)], [a, b])
+
+
 def C05_output_order_family():
     """results (a4d, b4d, c1d, d4d) under every ordered subset of outputs_as_nchw over the 4-D leaves:
     output k must be leaf k (NCHW-transposed iff flagged)."""
@@ -973,6 +1005,7 @@ ALL = {
     "C05_output_order_family": C05_output_order_family,
     "C04_dimexpr_family": C04_dimexpr_family,
     "C02_table_family": C02_table_family,
+    "C03_function_identifiers_unique": C03_function_identifiers_unique,
     "C09_function_body_constants_follow_precision": C09_function_body_constants_follow_precision,
     "D10_cumprod_lax": D10_cumprod_lax, "D10_cumprod_jnp": D10_cumprod_jnp, "D10_bitcast": D10_bitcast,
     "C11_ops_within_opset": C11_ops_within_opset, "C11_function_body_opset": C11_function_body_opset,
